@@ -13,7 +13,7 @@ def run(res, ctx):
     if tier == "quick":
         runner.run_harness(res, SRC, "asan", tier, args=args, deadline=480, timeout=1200, shards=16)
     else:
-        runner.run_harness(res, SRC, "asan", tier, args=args, deadline=1500, timeout=2400, shards=16)
+        runner.run_harness(res, SRC, "asan", tier, args=args, deadline=3000, timeout=4200, shards=16)
 
 
 def replay(res, path, ctx):
